@@ -29,6 +29,14 @@ SCHEMA3 = f'''<xs:schema {XS}><xs:element name="r"><xs:complexType><xs:sequence>
   <xs:attribute name="a" type="xs:QName"/></xs:complexType></xs:element></xs:sequence></xs:complexType></xs:element></xs:schema>'''
 
 
+# fourth template: children of two names in any order (a choice that repeats): the decoded dictionary groups them by name
+SCHEMA4 = f'''<xs:schema {XS}><xs:element name="r"><xs:complexType><xs:choice maxOccurs="unbounded"><xs:element name="a" type="xs:int"/><xs:element name="b" type="xs:string"/></xs:choice></xs:complexType></xs:element></xs:schema>'''
+
+
+def gen4(rng):
+    return '<r>' + ''.join(rng.choice([f'<a>{rng.randrange(9)}</a>', f'<b>{rng.choice("xyz")}</b>', '<a>bad</a>']) for _ in range(rng.randrange(1, 6))) + '</r>'
+
+
 def gen3(rng):
     def decl(): return rng.choice(['', '', ' xmlns:p="urn:p"', ' xmlns:q="urn:q"', ' xmlns:p="urn:other"'])
     def qn(): return rng.choice(['p:x', 'q:y', 'z', 'p:w'])
@@ -56,7 +64,7 @@ def stream(res):
 def eval_doc(args):
     ver, doc = args[:2]; which = args[2] if len(args) > 2 else 1
     import xmlschema
-    s = _S.get((ver, which)) or _S.setdefault((ver, which), _cls(ver)({1: docgen.schema_for(ver), 2: SCHEMA2, 3: SCHEMA3}[which]))
+    s = _S.get((ver, which)) or _S.setdefault((ver, which), _cls(ver)({1: docgen.schema_for(ver), 2: SCHEMA2, 3: SCHEMA3, 4: SCHEMA4}[which]))
     problems = []; reported = []
     try:
         e0 = [(e.reason, type(e).__name__) for e in s.iter_errors(doc)]
@@ -76,7 +84,12 @@ def eval_doc(args):
                     return x['$'] if lvl >= 1 and set(x) == {'$'} else x
                 if isinstance(d, list): return [strip(v, lvl) for v in d]
                 return d
+            def leaves(d): return sorted(repr(x) for x in ([v for vs in d.values() for v in (vs if isinstance(vs, list) else [vs])] if isinstance(d, dict) else [d]))
             if strip(d0) == strip(d1): reported.append('KNOWN:C06-lazy-decode-drops-nested-xmlns')
+            # listed finding: every pruned child is the SAME generator, which yields the children in document order; a dictionary groups them by name, so the values
+            # land under the wrong keys as soon as the names interleave (same values, same shape)
+            elif which == 4 and isinstance(d0, dict) and isinstance(d1, dict) and list(d0) == list(d1) and all(len(d0[k]) == len(d1[k]) for k in d0) and leaves(d0) == leaves(d1):
+                reported.append('KNOWN:C06-lazy-decode-placeholders-lose-document-order')
             else: problems.append(f'data differs: {str(d0)[:80]} vs {str(d1)[:80]}')
         full = xmlschema.XMLResource(doc); lazy = xmlschema.XMLResource(doc, lazy=1, thin_lazy=False)
         # the order in which a lazy resource yields the descendants of a chunk is pinned by the test-suite (reverse end order), so the
@@ -84,15 +97,24 @@ def eval_doc(args):
         if sorted(stream(full)) != sorted(stream(lazy)): problems.append('iteration multiset (tag, text, nsmap) differs')
         elif stream(full) != stream(lazy): reported.append('iteration order differs')
         # path-based processing of a lazy resource (the selection runs on the lazy XPath tree, chunk after chunk)
-        root_tag = 't:r' if which != 3 else 'r'; child = {1: 't:item', 2: '*', 3: 'q'}[which]; nsm = {'t': 'urn:t'}
-        for pth in ((f'/{root_tag}/{child}', child) if len(doc) < 50000 else (f'/{root_tag}/{child}',)):
-            p0 = [(e.reason, type(e).__name__) for e in s.iter_errors(doc, path=pth, namespaces=nsm)]
-            n0 = len(xmlschema.XMLResource(doc).findall(pth, nsm))
+        root_tag = 't:r' if which < 3 else 'r'; child = {1: 't:item', 2: '*', 3: 'q', 4: '*'}[which]; nsm = {'t': 'urn:t'}
+        paths = [f'/{root_tag}/{child}']
+        if len(doc) < 50000:
+            paths.append(child)
+            # paths deeper than the lazy depth (the chunk is released when it ends, whatever the depth of the path) and a positional predicate
+            if which == 1: paths += ['/t:r/t:item/t:sub', '/t:r/t:item/*', '/t:r/*/t:sub/t:leaf', '/t:r/t:item[2]']
+        for pth in paths:
+            deep = pth.count('/') > 2; positional = '[' in pth
+            sel0 = [(e.tag, (e.text or '').strip(), tuple(sorted(e.attrib.items()))) for e in xmlschema.XMLResource(doc).iterfind(pth, nsm)]
+            if not deep: p0 = [(e.reason, type(e).__name__) for e in s.iter_errors(doc, path=pth, namespaces=nsm)]
             for thin in (True, False):
+                sel1 = [(e.tag, (e.text or '').strip(), tuple(sorted(e.attrib.items()))) for e in xmlschema.XMLResource(doc, lazy=1, thin_lazy=thin).iterfind(pth, nsm)]
+                if sel0 != sel1:
+                    if positional and thin and len(sel1) > len(sel0): reported.append('KNOWN:C06-thin-lazy-positional-predicates'); continue
+                    problems.append(f'path {pth!r} (thin_lazy={thin}): {len(sel1)} elements selected, {len(sel0)} in the loaded document (or other elements)')
+                if deep or positional: continue      # (validation of parts below the chunks is C20's subject, with its listed findings)
                 p1 = [(e.reason, type(e).__name__) for e in s.iter_errors(xmlschema.XMLResource(doc, lazy=1, thin_lazy=thin), path=pth, namespaces=nsm)]
                 if sorted(p0) != sorted(p1): problems.append(f'path {pth!r} (thin_lazy={thin}): errors differ, eager {len(p0)} lazy {len(p1)}')
-                n1 = sum(1 for _ in xmlschema.XMLResource(doc, lazy=1, thin_lazy=thin).iterfind(pth, nsm))
-                if n0 != n1: problems.append(f'path {pth!r} (thin_lazy={thin}): {n1} elements selected, {n0} in the loaded document')
         e2 = [(e.reason, type(e).__name__) for e in s.iter_errors(xmlschema.XMLResource(doc, lazy=2))]
         if e2 != e0: reported.append('depth-2 errors differ')
     except Exception as e:
@@ -127,19 +149,23 @@ def run(tier, seed, open_findings):
         k = d.rfind('codeRef="')
         if k > 0 and i % 2: d = d[:k] + 'codeRef="99999' + d[d.index('"', k + 9):]
         docs.append(d)
+    docs.append(docgen.gen(rng, 170))       # spans two read blocks of the parser (16 KiB) and is still small enough for the deep paths
     docs += ['<t:r xmlns:t="urn:t"/>', '<t:r xmlns:t="urn:t"></t:r>', '<t:r xmlns:t="urn:t">text</t:r>']       # a root without chunks
     jobs = [(ver, d) for d in docs for ver in ('1.0', '1.1')]
     docs2 = [gen2(rng) for _ in range(n // 3)]
     jobs += [(ver, d, 2) for d in docs2 for ver in ('1.0', '1.1')]
     docs3 = [gen3(rng) for _ in range(n // 2)]
     jobs += [(ver, d, 3) for d in docs3 for ver in ('1.0', '1.1')]
+    docs4 = [gen4(rng) for _ in range(n // 3)] + ['<r><a>1</a><b>x</b><a>2</a><b>y</b></r>']
+    jobs += [(ver, d, 4) for d in docs4 for ver in ('1.0', '1.1')]
     res = pmap(eval_doc, jobs)
-    fails = [dict(case=dict(doc=r['doc'], ver=r['ver'], template=3 if r['doc'].startswith('<r') else (2 if '<t:code>' in r['doc'] or '<t:r xmlns:t="urn:t"><t:' in r['doc'] and 't:item' not in r['doc'] else 1)), observed=r['problems'], required='lazy = eager') for r in res if r['problems']]
+    fails = [dict(case=dict(doc=r['doc'], ver=r['ver'], template=4 if r['doc'].startswith('<r><') or r['doc'] == '<r></r>' else 3 if r['doc'].startswith('<r') else (2 if '<t:code>' in r['doc'] or '<t:r xmlns:t="urn:t"><t:' in r['doc'] and 't:item' not in r['doc'] else 1)), observed=r['problems'], required='lazy = eager') for r in res if r['problems']]
     known = {}
     for r in res:
-        if 'KNOWN:C06-lazy-decode-drops-nested-xmlns' in r['reported']:
-            if 'C06-lazy-decode-drops-nested-xmlns' in open_findings: known['C06-lazy-decode-drops-nested-xmlns'] = known.get('C06-lazy-decode-drops-nested-xmlns', 0) + 1
-            else: fails.append(dict(case=dict(doc=r['doc'], ver=r['ver']), observed='lazy data lacks the @xmlns keys of nested elements', required='lazy = eager'))
+        for fid in ('C06-lazy-decode-drops-nested-xmlns', 'C06-thin-lazy-positional-predicates', 'C06-lazy-decode-placeholders-lose-document-order'):
+            if 'KNOWN:' + fid in r['reported']:
+                if fid in open_findings: known[fid] = known.get(fid, 0) + 1
+                else: fails.append(dict(case=dict(doc=r['doc'], ver=r['ver']), observed=fid, required='lazy = eager'))
     rep = sum(1 for r in res if any(not x.startswith('KNOWN') for x in r['reported']))
     return [result('C06.lazy_equals_eager', f'{len(docs)} generated documents x 2 classes x (errors thin/non-thin, data, iteration stream)', len(jobs) * 4, fails, known=known,
                    samples=[dict(doc=docs[1][:200])], reported={'depth-2 differences (reported only)': rep}, distinct=len(set(docs)) * 2)]
